@@ -527,6 +527,8 @@ type FuncContract struct {
 	Inline   bool
 	Pure     bool
 	Trusted  bool   // external: assumed, never verified
+	AssumedAssigns []AssignItem // frame callers may assume although it is not proved for the body (an explicit assumption)
+	HasAssumedAssigns bool
 	Iterates string // this function's only effects besides Assigns are calls of the named callback parameter (or captured variable)
 	Callback bool   // contract of a callback parameter: may write any object older than the enclosing function's entry, except Preserves
 	Preserves []AssignItem
@@ -581,7 +583,7 @@ type ContractFile struct {
 var clauseKeywords = map[string]bool{
 	"func": true, "requires": true, "ensures": true, "check": true, "defines": true, "assigns": true, "loop": true,
 	"ghost": true, "pred": true, "define": true, "axiom": true, "lemma": true, "inline": true,
-	"invariant": true, "decreases": true, "trusted": true, "pure": true, "readsargs": true, "iterates": true, "callback": true, "preserves": true, "note": true, "unroll": true, "ginv": true, "like": true, "frame": true,
+	"invariant": true, "decreases": true, "trusted": true, "pure": true, "readsargs": true, "iterates": true, "frame-assumed": true, "callback": true, "preserves": true, "note": true, "unroll": true, "ginv": true, "like": true, "frame": true,
 }
 
 // ParseContractFile reads //@ lines (or all lines if raw is true).
@@ -722,6 +724,27 @@ func ParseContractFile(path, pkg string, raw bool) (*ContractFile, error) {
 		case "readsargs":
 			if cur != nil {
 				cur.ReadsArgs = true
+			}
+		case "frame-assumed":
+			if cur == nil {
+				return nil, fmt.Errorf("%s: frame-assumed outside func", where)
+			}
+			cur.HasAssumedAssigns = true
+			for _, part := range splitTop(c.text, ',') {
+				part = strings.TrimSpace(part)
+				if strings.HasPrefix(part, "@") {
+					fr, ok := frames[part[1:]]
+					if !ok {
+						return nil, fmt.Errorf("%s: unknown frame %s", where, part)
+					}
+					cur.AssumedAssigns = append(cur.AssumedAssigns, fr...)
+					continue
+				}
+				items, err := parseAssigns(part, where)
+				if err != nil {
+					return nil, err
+				}
+				cur.AssumedAssigns = append(cur.AssumedAssigns, items...)
 			}
 		case "iterates":
 			if cur == nil {
